@@ -770,7 +770,7 @@ def gen_c10(seed, tier):
                       only_md_keys=g.rl.pick([None, None, False]))
             for i in range(nidp)]
     nsp = g.rl.pick([1, 2])
-    sps = [g.add_sp(i, sign_requests=g.rl.chance(0.5)) for i in range(nsp)]
+    sps = [g.add_sp(i, sign_requests=g.rl.chance(0.5), slack=g.rl.pick([None, 0, 60])) for i in range(nsp)]
     g.draw_skews()
     clean = (seed % 4 == 0)
     g.knobs = {"class": "clean" if clean else "faulty"}
@@ -785,9 +785,47 @@ def gen_c10(seed, tier):
         if sign and r.chance(0.6):
             kw["sigalg"] = r.pick(SIGALGS)
             kw["digalg"] = r.pick(DIGALGS)
-        kindmsg = r.weighted([("authn_request", 6), ("logout_request", 3), ("attribute_query", 2)])
+        kindmsg = r.weighted([("authn_request", 6), ("logout_request", 3), ("attribute_query", 2), ("logout_idp2sp", 2)])
         if kindmsg == "authn_request":
             g.ev("start", f=f, sp=sp["name"], idp=idp["name"], rb=rb, sign=sign, **kw)
+        elif kindmsg == "logout_idp2sp":
+            # single logout initiated by the IdP: the *SP* is the receiver that has to validate the request
+            rb = r.pick(["soap", "post", "redirect"])
+            g.ev("mkreq", f=f, sp=sp["name"], idp=idp["name"], kind="logout_request", direction="idp2sp", rb=rb,
+                 sign=bool(sign), **kw)
+            g.tick()
+            fk = "plain" if clean else r.pick(["plain", "stale", "other-sp", "other-endpoint", "truncate", "xml-attr",
+                                               "xml-sig", "dup", "tool"])
+            slack_sp = sp.get("slack") or 0
+            if fk == "stale":
+                delta = r.pick([-2, -1, 0, 1, 2, 3600])
+                sender_now = int(math.floor(g.now_of(idp["name"], g.t - 1)))
+                sign_dir = r.pick([1, -1])
+                target = sender_now + sign_dir * (86400 + slack_sp) + delta
+                J = target + 0.5 - g.now_of(sp["name"], g.t)
+                g.ev("jump", node=sp["name"], delta=J)
+                g.ev("req", f=f)
+                g.ev("jump", node=sp["name"], delta=-J)
+            elif fk == "other-sp" and len(sps) > 1:
+                g.ev("req", f=f, to=r.pick([x for x in sps if x is not sp])["name"])
+            elif fk == "other-endpoint":
+                g.ev("req", f=f, via="slo_" + r.pick([b for b in ("soap", "post", "redirect") if b != rb]))
+            elif fk == "truncate":
+                g.ev("req", f=f, mut={"k": "truncate", "frac": r.random()}, sub=g.sub())
+            elif fk in ("xml-attr", "xml-sig"):
+                g.ev("req", f=f, mut={"k": "xml", "where": "attr" if fk == "xml-attr" else r.pick(["sigvalue", "digest"]),
+                                      "target": "response"}, sub=g.sub())
+            elif fk == "dup":
+                g.ev("req", f=f)
+                g.ev("req", f=f)
+            elif fk == "tool":
+                g.ev("req", f=f, tf=[{"op": "verify", "ord": r.pick([0, "all"]), "mode": r.pick(modes_for("verify")),
+                                      "variant": r.randrange(10 ** 6)}])
+                g.ev("req", f=f)
+            else:
+                g.ev("req", f=f)
+            g.tick()
+            continue
         else:
             rb = "soap" if kindmsg == "attribute_query" else r.pick(["soap", "post", "redirect"])
             g.ev("mkreq", f=f, sp=sp["name"], idp=idp["name"], kind=kindmsg, rb=rb, sign=bool(sign), **kw)
